@@ -6,7 +6,9 @@
 (*            request body still a stream) x request shape x way of        *)
 (*            recycling (same keep-alive connection, next connection,      *)
 (*            other open connection) x ending (return, abort, panic under  *)
-(*            recovery) x lazy getters run before Copy or not              *)
+(*            recovery) x lazy getters run before Copy or not; "rich":     *)
+(*            the handler has filled keys, an error and the response       *)
+(*            before (rotating, like tracing)                              *)
 (*   pre      every mutator of the alphabet applied to the original        *)
 (*            before Copy                                                  *)
 (*   step     every mutator applied after Copy to the original / to the    *)
@@ -37,7 +39,7 @@ MSeq == SetToSeq(Alphabet)
 N    == Len(MSeq)
 WatchSeq == SetToSeq(Watch)
 
-Blank == [id |-> 0, kind |-> "copy", shape |-> "get", state |-> "mid", predump |-> FALSE, pre |-> << >>, steps |-> << >>,
+Blank == [id |-> 0, kind |-> "copy", shape |-> "get", state |-> "mid", predump |-> FALSE, rich |-> FALSE, pre |-> << >>, steps |-> << >>,
           ending |-> "return", mode |-> "same", trace |-> FALSE, watch |-> WatchSeq, conns |-> 0, rounds |-> 0]
 
 St(at, side, m) == [at |-> at, side |-> side, m |-> m]
@@ -47,12 +49,12 @@ H(x) == (x * 75 + 74) % 65537
 
 \* the rotating parameters: x runs through all 4*3*3*2*2 combinations as it grows
 Rot(c, x) == [c EXCEPT !.shape = Shapes[(x % 4) + 1], !.mode = Modes[((x \div 4) % 3) + 1], !.ending = Endings[((x \div 12) % 3) + 1],
-                       !.predump = ((x \div 36) % 2) = 1, !.trace = ((x \div 72) % 2) = 1]
+                       !.predump = ((x \div 36) % 2) = 1, !.trace = ((x \div 72) % 2) = 1, !.rich = ((x \div 144) % 2) = 1]
 
 StatePre(s) == CASE s = "abort" -> <<"Ctx.Abort">> [] s = "stream" -> <<"Ctx.SetBodyStream">> [] s = "hijack" -> <<"Ctx.Hijack">>
                  [] OTHER -> << >>
 StateCases ==
-  SetToSeq({Rot([Blank EXCEPT !.state = States[s], !.pre = StatePre(States[s])], x + 72 * ((s + Seed) % 2)) : s \in 1 .. 5, x \in 0 .. 71})
+  SetToSeq({Rot([Blank EXCEPT !.state = States[s], !.pre = StatePre(States[s])], x + 72 * ((s + Seed) % 4)) : s \in 1 .. 5, x \in 0 .. 71})
 
 SinglesPre  == [i \in 1 .. N |-> Rot([Blank EXCEPT !.pre = <<MSeq[i]>>], H(i * 5 + Seed))]
 Places == <<<<"h", "O">>, <<"h", "C">>, <<"s", "O">>, <<"s", "C">>>>
@@ -82,8 +84,8 @@ Triples ==
 FreshBlank == [Blank EXCEPT !.kind = "fresh", !.state = "fresh"]
 FreshIdx == {i \in 1 .. N : (i + Seed) % FreshMod = 0}
 FreshCases ==
-  SetToSeq({[FreshBlank EXCEPT !.pre = StatePre(States[s]), !.predump = pd] : s \in 1 .. 4, pd \in BOOLEAN})
-  \o SetToSeq({[FreshBlank EXCEPT !.pre = <<MSeq[i]>>, !.predump = (i % 2 = 0)] : i \in FreshIdx})
+  SetToSeq({[FreshBlank EXCEPT !.pre = StatePre(States[s]), !.predump = pd, !.rich = ri] : s \in 1 .. 4, pd \in BOOLEAN, ri \in BOOLEAN})
+  \o SetToSeq({[FreshBlank EXCEPT !.pre = <<MSeq[i]>>, !.predump = (i % 2 = 0), !.rich = (i % 4 < 2)] : i \in FreshIdx})
   \o SetToSeq({[FreshBlank EXCEPT !.steps = <<St(Places[((i + Seed) % 4) + 1][1], Places[((i + Seed) % 4) + 1][2], MSeq[i])>>] : i \in FreshIdx})
 
 BgCases == [c \in 1 .. 2 * NBg |->
